@@ -170,6 +170,8 @@ impl Reasoner {
                 }
             } else {
                 // Try removing each fact to create new candidate repairs
+                #[cfg(kolibrie_verif)]
+                let current_set = crate::verif::Ordered::new(&current_set);
                 for fact in current_set.iter() {
                     let mut new_set = current_set.clone();
                     new_set.remove(fact);
